@@ -185,7 +185,26 @@ TWIN_B = '<start> ::= r"[ab]" <y>*\n<y> ::= r"a.c" | "z" | r"a"\n'
 TWIN_WORDS = ["a", "b", "aabc", "[ab]", "[ab]a.c", "aa.c", "bz", "[ab]q", "baxc"]
 
 
+# two specs that use the same nonterminal NAMES for different rules (anything memoised per name is shared); bounded repetitions only, so the
+# recorded cap leak cannot be what makes B differ; the constraints fail on most first attempts, so mutation and crossover run
+NAME_A = '<start> ::= <k> <n>{4,6}\n<k> ::= "x"\n<n> ::= "0" | "1"\nwhere str(<start>).count("1") >= 4\n'
+NAME_B = '<start> ::= <k>{6,8} <n>\n<k> ::= "x" | "y" | "z"\n<n> ::= ";"\nwhere str(<start>).count("y") >= 5\n'
+
+
+def has_open_repetition(spec):
+    import re
+    grammar = "\n".join(l for l in spec.splitlines() if "::=" in l)
+    grammar = re.sub(r'r?"(?:[^"\\]|\\.)*"', "", grammar)
+    return bool(re.search(r"[*+]|\{\s*\d*\s*,\s*\}", grammar))
+
+
 def gen_scenario(rng):
+    if rng.random() < 0.2:
+        first, second = (NAME_A, NAME_B) if rng.random() < 0.6 else (NAME_B, NAME_A)
+        kw = dict(desired_solutions=6, max_generations=10, population_size=8)
+        acts = [["fuzz", rng.randrange(1000), kw] for _ in range(rng.randint(1, 2))]
+        reqs = [["fuzz", rng.randrange(1000), kw] for _ in range(rng.randint(1, 2))]
+        return {"a_spec": first, "a_activity": acts, "b_spec": second, "b_requests": reqs, "b_first": rng.random() < 0.3}
     if rng.random() < 0.25:
         first, second = (TWIN_A, TWIN_B) if rng.random() < 0.5 else (TWIN_B, TWIN_A)
         acts = [["parse", w] for w in rng.sample(TWIN_WORDS, 4)] + [["fuzz", rng.randrange(1000), dict(desired_solutions=3, max_generations=2, population_size=6)]]
@@ -253,7 +272,8 @@ def correspondence(res):
             # fandango.logger.COLUMNS caches the terminal width for progress output (presentation only)
             # (an entry whose rendering is the same before and after -- e.g. a lexer slot set to None again -- carries nothing)
             changed = {k for k, v in wa["frame_diff"].items() if v[0] != v[1]} - {"fandango.logger.COLUMNS"}
-            only_cap = changed == {"fandango.language.grammar.nodes.MAX_REPETITIONS"}
+            # the cap can only matter to a spec with an open-ended repetition
+            only_cap = changed == {"fandango.language.grammar.nodes.MAX_REPETITIONS"} and has_open_repetition(scn["b_spec"])
             if only_cap and "max-repetitions-global" in sigs:
                 res.known(KNOWN_CAP)
                 res.bump("known_cap_leak")
